@@ -36,8 +36,20 @@ fn model_failing() -> Model {
     m
 }
 
-pub const N_OPS: usize = 9;
-const OP_NAMES: [&str; N_OPS] = ["convert(cubo)", "convert(e4h_medianeras)", "convert(generated)", "indicators(cubo.json, D3)", "indicators(ejemploviv_unif.json)", "indicators(box, B3)", "indicators(box with shaded window, A3c)", "indicators(broken model, E1)", "collect_hulc_data(cubo, extra)"];
+pub const N_OPS: usize = 11;
+const OP_NAMES: [&str; N_OPS] = ["convert(cubo)", "convert(e4h_medianeras)", "convert(generated)", "indicators(cubo.json, D3)", "indicators(ejemploviv_unif.json)", "indicators(box, B3)", "indicators(box with shaded window, A3c)", "indicators(broken model, E1)", "collect_hulc_data(cubo, extra)", "convert(cubo with three shades without a name)", "convert(generated, same names with other contents)"];
+
+/// cubo with three vertex-defined shades whose name is the empty string (legal BDL; whatever the converter calls
+/// them must not depend on what else the process is doing)
+fn unnamed_shades_text() -> String {
+    let text = corpus::read_utf8(&format!("{}/cubo/cubo.ctehexml", corpus::tests_dir()));
+    let mut extra = String::new();
+    for k in 0..3 {
+        let x = 12.0 + 3.0 * k as f32;
+        extra += &format!("\"\" = BUILDING-SHADE\n    TRAN = 0\n    REFL = 0.7\n    V1 =( {x}, -5, 0 )\n    V2 =( {}, -5, 0 )\n    V3 =( {}, -5, {} )\n    V4 =( {x}, -5, {} )\n    ..\n", x + 2.0, x + 2.0, 3 + k, 3 + k);
+    }
+    insert_before_end(&text, false, &extra)
+}
 
 /// run one operation, return the hash of its observation (model JSON bytes / indicators as JSON value text)
 pub fn run_op(op: usize) -> u64 {
@@ -67,11 +79,32 @@ pub fn run_op(op: usize) -> u64 {
         5 => ind_hash(&simple_box(zone("B3"))),
         6 => ind_hash(&model_canary()),
         7 => ind_hash(&model_failing()),
-        _ => match hulc2model::collect_hulc_data(format!("{}/cubo", tests), true, true) {
+        8 => match hulc2model::collect_hulc_data(format!("{}/cubo", tests), true, true) {
             Ok(m) => hash64(&m.as_json().unwrap()),
             Err(_) => 1,
         },
+        9 => match corpus::convert_text(&unnamed_shades_text(), false) {
+            Outcome::Ok(m) => hash64(&m.as_json().unwrap()),
+            _ => 1,
+        },
+        _ => match corpus::convert_text(&same_names_other_contents_text(), false) {
+            Outcome::Ok(m) => hash64(&m.as_json().unwrap()),
+            _ => 1,
+        },
     }
+}
+
+/// the generated project of operation 2 with every name kept and the contents behind the names changed: another
+/// outline and storey height (same polygon, space and wall names), another conductivity and thickness for the
+/// project's own material and layers, another glazing conductance wherever one is written
+fn same_names_other_contents_text() -> String {
+    let mut sp = spec0();
+    sp.outline = 0;
+    sp.height = 3.1;
+    sp.global_dev = 90.0;
+    let t = projgen::ctehexml_text(&sp);
+    let t = t.replacen("CONDUCTIVITY = 0.5\n    DENSITY = 1000", "CONDUCTIVITY = 0.25\n    DENSITY = 1400", 1);
+    t.replacen("THICKNESS = ( 0.24)", "THICKNESS = ( 0.115)", 1)
 }
 
 fn decode_history(mut idx: u64) -> Vec<usize> {
@@ -683,7 +716,36 @@ pub fn run(ctx: &Ctx) -> i32 {
         if bad.load(std::sync::atomic::Ordering::Relaxed) > 0 {
             ctx.violation("free-running-threads:result-differs", &format!("{} of {} concurrent computations differ from the sequential reference", bad.load(std::sync::atomic::Ordering::Relaxed), rounds * 16), json!({"part": "free-running (sampling)"}));
         }
-        ctx.note("free_running_sampling", json!({"rounds": rounds, "threads": 16, "labelled": "sampling complement, can only add violations"}));
+        // conversions only: 16 threads leave a barrier together and convert the project with the unnamed shades 6 times
+        // each (state shared through atomics has no hooked site and is invisible to the scheduler above)
+        let text = unnamed_shades_text();
+        let conv = |t: &str| match corpus::convert_text(t, false) {
+            Outcome::Ok(m) => hash64(&m.as_json().unwrap()),
+            _ => 1,
+        };
+        let reference = conv(&text);
+        let bad2 = std::sync::atomic::AtomicU64::new(0);
+        let barrier = std::sync::Barrier::new(16);
+        let per = ctx.tier.pick(6, 40);
+        std::thread::scope(|s| {
+            for _ in 0..16 {
+                s.spawn(|| {
+                    barrier.wait();
+                    for _ in 0..per {
+                        if catch(std::panic::AssertUnwindSafe(|| conv(&text))).ok() != Some(reference) {
+                            bad2.fetch_add(1, std::sync::atomic::Ordering::Relaxed);
+                        }
+                    }
+                });
+            }
+        });
+        ctx.eval(16 * per as u64);
+        if reference == 1 {
+            ctx.note("unnamed_shades_project", json!("not convertible on this tree: the concurrent-conversion complement is vacuous"));
+        } else if bad2.load(std::sync::atomic::Ordering::Relaxed) > 0 {
+            ctx.violation("free-running-threads:conversion-differs", &format!("{} of {} concurrent conversions of one project (three shades without a name) differ from the bytes of the conversion done alone", bad2.load(std::sync::atomic::Ordering::Relaxed), 16 * per), json!({"part": "free-running (sampling)"}));
+        }
+        ctx.note("free_running_sampling", json!({"rounds": rounds, "threads": 16, "concurrent_conversions_of_one_project": 16 * per, "labelled": "sampling complement, can only add violations"}));
     }
     ctx.note("seconds_until_section_4", json!(t_sec.elapsed().as_secs_f64()));
     // ---- 4. reference pairs
@@ -833,7 +895,7 @@ pub fn run(ctx: &Ctx) -> i32 {
     }
     ctx.finish(
         "model_checking",
-        &format!("(1) histories: every sequence of 1 and 2 operations over 9 operations (3 conversions, 5 indicator computations incl. a model without windows and a broken model, 1 collect_hulc_data with extra files) and {} sequences of 3 over a 6-operation core, each run in a fresh worker process: the last operation's observation (model JSON bytes / indicators as JSON value) must equal its observation as the only operation of a fresh process, and repeat identically 3x in-process; 4 conversions x 8 fresh processes byte-identical; (2) id locality: for corpus and generated projects, appending each of 12 unrelated definitions (material, layers, glass, frame, gap, polygon, day/week/year schedule, shade, bridge, floor+space+wall; an unused coloured CONSTRUCTION over an existing LAYERS) keeps every pre-existing element id - also when the added definition borrows the name of an existing definition of another kind of the same family (day/week/year schedules; material/layers/glazing/frame/gap) -, and writing the first block of every type twice (straight after itself / again at the end) gives the same bytes on every conversion, on another thread too, and keeps the ids; (3) schedules: controlled scheduler over the three hooked lock sites, real threads, DFS with preemption bounds as listed in schedule_exploration (deadlock / panic / result-vs-sequential-reference per execution, replay determinism checked first), + a free-running 16-thread sampling complement; (4) the 6 shipped (project, reference model) pairs compared through today's serialiser; (5) 3 models x 10 in-place histories (indicators, then an edit through the public fields / purge / check, then indicators on the same object and on its clone) against the edited model loaded afresh from its JSON; (6) the smallest project through hulc2model (twice) and thor -o (onto a new path and onto the path of an earlier, larger export): the library's bytes every time", ctx.tier.pick(36, 216)),
+        &format!("(1) histories: every sequence of 1 and 2 operations over 11 operations (5 conversions incl. a project with three shades without a name and the generated project with every name kept and other contents behind the names, 5 indicator computations incl. a model without windows and a broken model, 1 collect_hulc_data with extra files) and {} sequences of 3 over a 6-operation core, each run in a fresh worker process: the last operation's observation (model JSON bytes / indicators as JSON value) must equal its observation as the only operation of a fresh process, and repeat identically 3x in-process; 4 conversions x 8 fresh processes byte-identical; (2) id locality: for corpus and generated projects, appending each of 12 unrelated definitions (material, layers, glass, frame, gap, polygon, day/week/year schedule, shade, bridge, floor+space+wall; an unused coloured CONSTRUCTION over an existing LAYERS) keeps every pre-existing element id - also when the added definition borrows the name of an existing definition of another kind of the same family (day/week/year schedules; material/layers/glazing/frame/gap) -, and writing the first block of every type twice (straight after itself / again at the end) gives the same bytes on every conversion, on another thread too, and keeps the ids; (3) schedules: controlled scheduler over the three hooked lock sites, real threads, DFS with preemption bounds as listed in schedule_exploration (deadlock / panic / result-vs-sequential-reference per execution, replay determinism checked first), + a free-running 16-thread sampling complement; (4) the 6 shipped (project, reference model) pairs compared through today's serialiser; (5) 3 models x 10 in-place histories (indicators, then an edit through the public fields / purge / check, then indicators on the same object and on its clone) against the edited model loaded afresh from its JSON; (6) the smallest project through hulc2model (twice) and thor -o (onto a new path and onto the path of an earlier, larger export): the library's bytes every time", ctx.tier.pick(36, 216)),
         true,
         json!({"states": states.max(1), "transitions": transitions.max(1), "traces_validated_against_impl": transitions}),
     )
